@@ -94,6 +94,7 @@ def enum_strategy(n_max=6, max_deg=6, max_terms=6):
                                  gen.pick((2, 2), (3, 2), (4, 1))).map(list),
                 "edit": st.tuples(st.integers(0, 7), st.sampled_from([1, -1, 0.5, -2])).map(list),
                 "ctype": gen.CTYPE,
+                "dup": st.one_of(st.none(), st.none(), st.tuples(st.integers(0, 7), st.booleans(), st.sampled_from([1, -2, 0.5, 3])).map(list)),
             })
         return st.integers(0, 9).flatmap(lambda r: gen.label_pool(False, 3 if r else 1, n_max)).flatmap(for_labels)
     return st.sampled_from(KINDS).flatmap(for_kind)
@@ -103,7 +104,14 @@ def enum_strategy(n_max=6, max_deg=6, max_terms=6):
 
 def build_model(qv, spec):
     kind = spec["kind"]
-    M = gen.build_from_dict(qv, kind, [[tuple(k), gen.wrap_number(v, spec.get("ctype"))] for k, v in spec["terms"]])
+    terms = [[tuple(k), gen.wrap_number(v, spec.get("ctype"))] for k, v in spec["terms"]]
+    dup = spec.get("dup")
+    if dup is not None and terms:
+        # one monomial is entered a second time with its labels in another order (the model adds the two up)
+        k0, v0 = terms[dup[0] % len(terms)]
+        if len(k0) >= 2:
+            terms.append([tuple(k0[1:] + k0[:1]) if dup[1] else tuple(reversed(k0)), gen.wrap_number(dup[2], spec.get("ctype"))])
+    M = gen.build_from_dict(qv, kind, terms)
     c = spec.get("constraint")
     if c:
         rel, cterms = c
@@ -363,6 +371,7 @@ def cert_strategy():
                                  gen.pick((2, 2), (3, 2), (4, 1))).map(list),
                 "edit": st.tuples(st.integers(0, 7), st.sampled_from([1, -1, 0.5, -2])).map(list),
                 "ctype": gen.CTYPE,
+                "dup": st.one_of(st.none(), st.none(), st.tuples(st.integers(0, 7), st.booleans(), st.sampled_from([1, -2, 0.5, 3])).map(list)),
             })
         return st.sampled_from(BIG_POOLS).flatmap(
             lambda p: st.integers(4, 12).map(lambda n: p[:n])).flatmap(for_labels)
